@@ -64,6 +64,30 @@ def main():
             for ev in res["trace"][:200]:
                 print(json.dumps(ev, default=str))
         return 1 if res["violations"] else 0
+    if a.cmd == "self-check":
+        # end-to-end canary: a planted violation must come out as exit 1 + VIOLATION + reproducing replay
+        import contextlib
+        import io
+        import shutil
+        import tempfile
+
+        tmp = tempfile.mkdtemp(prefix="simkit-canary-")
+        os.environ["VERIF_REPLAY_DIR"] = os.path.join(tmp, "replays")
+        os.environ["VERIF_EVIDENCE_DIR"] = os.path.join(tmp, "evidence")
+        buf = io.StringIO()
+        try:
+            with contextlib.redirect_stdout(buf):
+                rc = runner.run_check("CANARY", "quick", 0, workers=2)
+            out = buf.getvalue()
+            vl = [ln for ln in out.splitlines() if ln.startswith("VIOLATION property=CANARY replay=")]
+            ok = rc == 1 and len(vl) == 1 and "invariant=CANARY.planted" in out
+            if ok:
+                rep = json.load(open(vl[0].split("replay=")[1].strip()))
+                ok = rep["scenario"]["x"] % 7 == 3 and rep["scenario"]["pad"] == [] and rep["scenario"]["x"] < 7
+            print("self-check:", "ok - planted violation reported, minimised and replayed" if ok else "FAILED\n" + out)
+            return 0 if ok else 2
+        finally:
+            shutil.rmtree(tmp, ignore_errors=True)
     if a.cmd == "selftest-mutants":
         from simkit import selftest
 
